@@ -5,12 +5,14 @@ from fractions import Fraction
 import numpy as np
 import h5py
 from core import derived_rng
-from util import call
+from util import call, quiet
 
-REQUIRED_THEOREMS = ['Usid.C16.reflexive', 'Usid.C16.none_ignored', 'Usid.C16.absent_key_mismatch',
+NAN = '__nan__'          # float('nan') inside a case (cases are stored as strict JSON)
+
+REQUIRED_THEOREMS = ['Usid.C16.reflexive', 'Usid.C16.none_ignored', 'Usid.C16.absent_key_mismatch', 'Usid.C16.sequence_scalar_mismatch',
                      'Usid.C16.scalar_sensitive', 'Usid.C16.length_sensitive', 'Usid.C16.array_sensitive_partial',
                      'Usid.C16.array_sensitive_counterexample']
-RULE = ('random dictionaries over int / float / bool / str / None / lists of ints, floats or strings, written with '
+RULE = ('[also: NaN values, boolean lists, one value against a list of values and back, same-length / truncated / case-changed strings, values handed over as tuples / numpy arrays / numpy scalars, verbose=True, the File object itself] random dictionaries over int / float / bool / str / None / lists of ints, floats or strings, written with '
         'write_simple_attrs to a group or a dataset, queried with the same dictionary and with every single-entry '
         'perturbation (value +-1, value x(1 +- tol*{0.1,10}), string change, length +-1, type swap, removal from the '
         'stored object, None); non-trivial = at least one list entry or a perturbation that must flip the answer')
@@ -23,6 +25,8 @@ def gen_scalar(rng, kind):
     if kind == 'int':
         return rng.choice([rng.randint(-20, 20), rng.randint(10 ** 5, 10 ** 7), 0, 1])
     if kind == 'float':
+        if rng.random() < 0.06:
+            return NAN
         return rng.choice([rng.randint(-40, 40) / 8.0, rng.randint(1, 10 ** 6) / 4.0, 0.1 * rng.randint(1, 50), 2.5e-7])
     if kind == 'bool':
         return rng.random() < 0.5
@@ -30,13 +34,13 @@ def gen_scalar(rng, kind):
 
 
 def gen_value(rng):
-    k = rng.choice(['int', 'float', 'bool', 'str', 'none', 'ilist', 'flist', 'slist', 'ilist', 'flist'])
+    k = rng.choice(['int', 'float', 'bool', 'str', 'none', 'ilist', 'flist', 'slist', 'ilist', 'flist', 'blist'])
     if k in ('int', 'float', 'bool', 'str'):
         return gen_scalar(rng, k)
     if k == 'none':
         return None
     n = rng.choice([0, 1, 1, 2, 3, 4]) if k != 'slist' else rng.choice([1, 2, 3])
-    return [gen_scalar(rng, {'ilist': 'int', 'flist': 'float', 'slist': 'str'}[k]) for _ in range(n)]
+    return [gen_scalar(rng, {'ilist': 'int', 'flist': 'float', 'slist': 'str', 'blist': 'bool'}[k]) for _ in range(max(n, 1) if k == 'blist' else n)]
 
 
 def perturbations(rng, d):
@@ -51,7 +55,15 @@ def perturbations(rng, d):
             return x
         out.append(('none', q(None), None, key))
         out.append(('absent', copy.deepcopy(d), key, key))
-        if isinstance(v, bool):
+        if not isinstance(v, list):
+            # one value against a sequence of values: a change of "length"
+            out.append(('length', q([v]), None, key))
+            out.append(('length', q([v, v]), None, key))
+        elif len(v) == 1:
+            out.append(('length', q(v[0]), None, key))
+        if v == NAN:
+            out.append(('value', q(0.0), None, key))
+        elif isinstance(v, bool):
             out.append(('value', q(not v), None, key))
         elif isinstance(v, int):
             out.append(('value', q(v + rng.choice([-1, 1])), None, key))
@@ -62,6 +74,11 @@ def perturbations(rng, d):
                 out.append(('value', q(v * (1 + 1e-6)), None, key))
         elif isinstance(v, str):
             out.append(('value', q(v + 'z'), None, key))
+            if v:
+                out.append(('value', q(v[:-1]), None, key))                               # truncated
+                out.append(('value', q(v[:-1] + ('q' if v[-1] != 'q' else 'r')), None, key))   # same length
+                if v.swapcase() != v:
+                    out.append(('value', q(v.swapcase()), None, key))
             out.append(('type', q(7), None, key))
         elif isinstance(v, list):
             out.append(('length', q(v + [v[0] if v else 1]), None, key))
@@ -70,9 +87,19 @@ def perturbations(rng, d):
                 i = rng.randrange(len(v))
                 e = v[i]
                 w = list(v)
-                if isinstance(e, str):
+                if e == NAN:
+                    w[i] = 1.0
+                    out.append(('value', q(w), None, key))
+                elif isinstance(e, bool):
+                    w[i] = not e
+                    out.append(('value', q(w), None, key))
+                elif isinstance(e, str):
                     w[i] = e + 'z'
                     out.append(('value', q(w), None, key))
+                    if e:
+                        w4 = list(v)
+                        w4[i] = e[:-1] + ('q' if e[-1] != 'q' else 'r')
+                        out.append(('value', q(w4), None, key))
                 elif isinstance(e, int):
                     w[i] = e + rng.choice([-1, 1])
                     big = abs(w[i]) >= 10 ** 5 + 10
@@ -99,16 +126,44 @@ def generate(seed, tier):
         d = {'k%d' % j: gen_value(rng) for j in range(rng.randint(1, 5))}
         ps = perturbations(rng, d)
         rng.shuffle(ps)
-        cases.append({'stored': d, 'queries': [{'kind': k, 'q': q, 'drop': dr, 'key': key} for k, q, dr, key in ps[:6]],
-                      'on': rng.choice(['group', 'group', 'dataset'])})
+        cases.append({'stored': d, 'queries': [{'kind': k, 'q': q, 'drop': dr, 'key': key} for k, q, dr, key in ps[:8]],
+                      'on': rng.choice(['group', 'group', 'dataset', 'file']), 'verbose': rng.random() < 0.2,
+                      # containers the values are handed over in: lists / tuples / numpy arrays, python / numpy scalars
+                      'containers': rng.choice(['py', 'py', 'numpy', 'tuple'])})
     return cases
+
+
+def _py(v, containers='py'):
+    """a case value as the Python object handed to the library"""
+    if v == NAN and isinstance(v, str):
+        return float('nan')
+    if isinstance(v, list):
+        items = [float('nan') if (isinstance(x, str) and x == NAN) else x for x in v]
+        if containers == 'numpy' and items:
+            return np.array(items)
+        if containers == 'tuple':
+            return tuple(items)
+        return items
+    if containers == 'numpy':
+        if isinstance(v, bool):
+            return np.bool_(v)
+        if isinstance(v, int):
+            return np.int64(v) if abs(v) > 2 ** 30 else np.int32(v)
+        if isinstance(v, float):
+            return np.float64(v)
+        # (np.str_ is rewritten by sidpy's writer as a one-element array - outside /repo - and is not generated)
+    return v
+
+
+def _pyd(d, containers='py'):
+    return {k: _py(v, containers) for k, v in d.items()}
 
 
 def _dump(obj):
     out = {}
     for k in sorted(obj.attrs.keys()):
         v = obj.attrs[k]
-        out[k] = [str(np.asarray(v).dtype), np.asarray(v).tolist() if np.asarray(v).dtype.kind != 'S' else
+        out[k] = [str(np.asarray(v).dtype), str(np.asarray(v).tolist()) if np.asarray(v).dtype.kind != 'S' else
                   [x.decode() for x in np.atleast_1d(v)]]
     return out
 
@@ -119,21 +174,31 @@ def run_impl(inp, work):
     path = os.path.join(work, 'a.h5')
     res = []
     with h5py.File(path, 'w') as f:
+        cont = inp.get('containers', 'py')
+        vkw = {'verbose': True} if inp.get('verbose') else {}
+
         def mk(name, d):
-            o = f.create_group(name) if inp['on'] == 'group' else f.create_dataset(name, data=np.zeros(2))
-            write_simple_attrs(o, d)
+            if inp['on'] == 'file' and name == 'base':
+                o = f
+            else:
+                o = f.create_dataset(name, data=np.zeros(2)) if inp['on'] == 'dataset' else f.create_group(name)
+            write_simple_attrs(o, _pyd(d, cont))
             return o
+
+        def cmp(o, q):
+            with quiet():
+                return call(check_for_matching_attrs, o, new_parms=_pyd(q, cont), **vkw)
         o = mk('base', inp['stored'])
         before = _dump(o)
-        r = call(check_for_matching_attrs, o, new_parms=inp['stored'])
+        r = cmp(o, inp['stored'])
         res.append({'kind': 'same', 'out': bool(r[1]) if r[0] == 'ok' else {'err': r[1]}})
         for j, qd in enumerate(inp['queries']):
             if qd['drop'] is not None:
                 d2 = {k: v for k, v in inp['stored'].items() if k != qd['drop']}
                 o2 = mk('drop%d' % j, d2)
-                r = call(check_for_matching_attrs, o2, new_parms=qd['q'])
+                r = cmp(o2, qd['q'])
             else:
-                r = call(check_for_matching_attrs, o, new_parms=qd['q'])
+                r = cmp(o, qd['q'])
             res.append({'kind': qd['kind'], 'out': bool(r[1]) if r[0] == 'ok' else {'err': r[1]}})
         after = _dump(o)
     return {'results': res, 'unchanged': before == after}
@@ -167,6 +232,8 @@ def nontrivial(inp, obs):
 
 
 def _enc_scalar(v):
+    if isinstance(v, str) and v == NAN:
+        return {'t': 'nan'}
     if isinstance(v, bool):
         return {'t': 'bool', 'b': v}
     if isinstance(v, int):
